@@ -535,7 +535,9 @@ func checkC11(an *Analysis, add func(Violation)) {
 				}
 			}
 			x := exp{e: e, data: d.Data}
-			if e.Fail != 0 || d.T >= wake || serial == 0 { // a datagram that arrives at the very instant of the wake-up is a tie
+			// (a reply whose serial number field is 0 is a reply like any other here: the quantifier of C11 runs over
+			// "all field values", and nothing in its statement sets 0 apart as C10's does for events)
+			if e.Fail != 0 || d.T >= wake { // a datagram that arrives at the very instant of the wake-up is a tie
 				x.optional = true
 			}
 			e.Fail = 0
